@@ -17,7 +17,8 @@ Lemma frame_all_spec : forall rs fid bid bsz out bid' bsz',
   bsz < blockSize -> frame_all fid bid bsz rs = (out, bid', bsz') ->
   map fst out = rs /\ bsz' < blockSize /\ bid * blockSize + bsz <= bid' * blockSize + bsz' /\
   (forall r p, In (r, p) out ->
-     p_fid p = fid /\ bid * blockSize + bsz <= pstart p /\ pstart p < bid' * blockSize + bsz' /\ p_off p < blockSize) /\
+     p_fid p = fid /\ bid * blockSize + bsz <= pstart p /\ pstart p < bid' * blockSize + bsz' /\ p_off p < blockSize /\
+     pstart p + p_size p <= bid' * blockSize + bsz' /\ 0 < p_size p) /\
   (forall r p, In (r, p) out -> lf_lookup out (p_bid p) (p_off p) <> None) /\
   (forall i r p, nth_error out i = Some (r, p) -> lf_lookup out (p_bid p) (p_off p) = Some r).
 Proof.
@@ -30,7 +31,7 @@ Proof.
     destruct (frame_props _ _ _ _ _ _ _ Hwf (rec_len_pos r0) Hfr) as (Hfid & Hoff & Hge & Hend & Hsz & Hs1).
     destruct (IH fid b1 s1 out1 b2 s2 Hs1 Hrest) as (Hmap & Hs2 & Hmono & Hall & Hsome & Hnth).
     assert (Hskip : forall r p, In (r, p) out1 -> (p_bid p0 =? p_bid p) && (p_off p0 =? p_off p) = false).
-    { intros r p Hin. destruct (Hall r p Hin) as (_ & Hlo & _ & Hpo).
+    { intros r p Hin. destruct (Hall r p Hin) as (_ & Hlo & _ & Hpo & _).
       destruct ((p_bid p0 =? p_bid p) && (p_off p0 =? p_off p)) eqn:E; [|reflexivity].
       exfalso. unfold pstart in *. assert (p_bid p0 = p_bid p /\ p_off p0 = p_off p) as [E1 E2] by lia.
       rewrite E1, E2 in Hend. lia. }
@@ -38,7 +39,7 @@ Proof.
     split; [exact Hs2|]. split; [lia|]. split; [|split].
     + intros r p [Heq|Hin].
       * injection Heq as <- <-. repeat split; try assumption; lia.
-      * destruct (Hall r p Hin) as (H1 & H2 & H3 & H4). repeat split; try assumption; lia.
+      * destruct (Hall r p Hin) as (H1 & H2 & H3 & H4 & H5 & H6). repeat split; try assumption; lia.
     + intros r p [Heq|Hin]; cbn [lf_lookup].
       * injection Heq as <- <-. rewrite !N.eqb_refl. cbn. discriminate.
       * rewrite (Hskip r p Hin). apply (Hsome r p Hin).
@@ -66,10 +67,11 @@ Proof.
   destruct (frame_all_spec _ _ _ _ _ _ _ Hbsz Hfa) as (Hmap & Hs' & Hmono & Hall & _ & Hnth).
   exists out. split; [exact Hrecs|]. split; [exact Hmap|]. split; [reflexivity|]. split; [|split].
   - intros r p Hin. rewrite Hrecs in Hin. rewrite Hsize. apply in_app_or in Hin. destruct Hin as [Hin|Hin].
-    + destruct (Hwf r p Hin) as [H1 H2]. split; [unfold n; lia|exact H2].
-    + destruct (Hall r p Hin) as (_ & H1 & H2 & H3). split; [unfold n; lia|exact H3].
-  - intros r p Hin. destruct (Hall r p Hin) as (H0 & H1 & H2 & H3). split; [exact H0|].
-    eapply lookup_none_beyond; [exact Hwf| |exact H3]. unfold pstart in H1. lia.
+    + destruct (Hwf r p Hin) as (H1 & H2 & H3 & H4). repeat split; try assumption; unfold n; lia.
+    + destruct (Hall r p Hin) as (_ & H1 & H2 & H3 & H4 & H5). repeat split; try assumption; unfold n; lia.
+  - intros r p Hin. destruct (Hall r p Hin) as (H0 & H1 & H2 & H3 & _). split; [exact H0|].
+    apply (lookup_none_beyond _ (lf_size f)); [|unfold pstart in H1; lia|exact H3].
+    intros r1 p1 Hin1. destruct (Hwf r1 p1 Hin1) as (A & B & _). auto.
   - exact Hnth.
 Qed.
 
